@@ -135,3 +135,6 @@ def check(idx: Index, rep: Report, prop: str) -> None:
                         continue
                 r.fail(inst, Finding(f"{prop}.M1", f.fq, "unreviewed-cache" if s.kind != "mark" else "unreviewed-visited-mark", f"new {'memo' if s.kind != 'mark' else 'visited mark'} {s.describe()} in `{f.qualname}`: whether it can go stale (the state it was derived from changes while the entry lives) is not decided", loc))
     rep.extra.setdefault("memo_sites", n_sites)
+    from . import alias_rule  # the second history-dependence lint shares the entry point (check.py, runall.py, selftest)
+
+    rep.run(alias_rule.check, idx, rep, prop)
